@@ -17,7 +17,7 @@
 //!    mapped, NAT64, multicast, link-local with and without scope ids, flow info, port 0) x request
 //!    served to its time-out / indication / response / application data x transports;
 //!  * message contents (C18): requests carrying one raw attribute of each of the 65 536 types (value
-//!    lengths 0 / 4 / 8 / 20, plain and fingerprinted) served through the default schedule;
+//!    lengths 0 / 4 / 8 / 20, plain and fingerprinted), and requests of each of the 4096 methods, served through the default schedule;
 //!  * purity (C20): each history is run three times on fresh threads, the third alongside unrelated
 //!    agents; the complete reply transcripts must be identical.
 use super::*;
@@ -239,13 +239,17 @@ fn contents(sc: &Scenario) -> Outcome {
     let dest = saddr(0, 1);
     let value: Vec<u8> = (0..sc.kind as usize).map(|i| if i == 2 { 1 } else { 0 }).collect();
     for lo in 0..256usize {
-        let typ = (sc.n * 256 + lo) as u16;
+        // kind 255: the sweep is over the 4096 methods instead (the attribute is SOFTWARE only)
+        let methods = sc.kind == 255;
+        let typ = if methods { 0xC0DE } else { (sc.n * 256 + lo) as u16 };
+        let method: u16 = if methods { (sc.n * 256 + lo) as u16 & 0xFFF } else { BINDING };
         if matches!(typ, 0x0008 | 0x001C | 0x8028) {
             continue; // the sealing attributes have rules of their own in the builder
         }
+        let value: Vec<u8> = if methods { vec![7, 7, 7, 7] } else { value.clone() };
         let mut a = StunAgent::builder(t, local_addr()).build();
         let sw = Software::new("c").unwrap();
-        let mut b = Message::builder(MessageType::from_class_method(MessageClass::Request, BINDING), stid(typ as usize).into());
+        let mut b = Message::builder(MessageType::from_class_method(MessageClass::Request, method), stid(typ as usize + method as usize).into());
         b.add_attribute(&sw).unwrap();
         if b.add_raw_attribute(RawAttribute::new(AttributeType::new(typ), &value)).is_err() {
             continue; // 0x8022 twice
@@ -253,11 +257,41 @@ fn contents(sc: &Scenario) -> Outcome {
         if sc.via == 1 {
             b.add_fingerprint().unwrap();
         }
-        let mut w = wire::encode_header(0, 1, stid(typ as usize), 0);
+        let mut w = wire::encode_header(0, method, stid(typ as usize + method as usize), 0);
         wire::append_raw(&mut w, 0x8022, b"c");
         wire::append_raw(&mut w, typ, &value);
         if sc.via == 1 {
             wire::append_fp(&mut w);
+        }
+        if methods {
+            // the same method through the receiving side: an indication and a request of that method
+            // are handed over and validate their source; a response of that method completes the request
+            let mut a2 = StunAgent::builder(t, local_addr()).build();
+            let sw2 = Software::new("c").unwrap();
+            let idv = stid(900_000 + method as usize);
+            let mut rq = Message::builder(MessageType::from_class_method(MessageClass::Request, method), idv.into());
+            rq.add_attribute(&sw2).unwrap();
+            let sent = a2.send(rq, dest, base).is_ok();
+            let mut verdicts = Vec::new();
+            for (class, from) in [(1u8, saddr(0, 7)), (0, saddr(0, 8)), (if method % 2 == 0 { 2 } else { 3 }, dest)] {
+                let bytes = {
+                    let mut m = wire::encode_header(class, method, if class >= 2 { idv } else { stid(910_000 + method as usize + class as usize) }, 0);
+                    wire::append_raw(&mut m, 0x8022, b"peer");
+                    m
+                };
+                let msg = Message::from_bytes(&bytes).unwrap();
+                let kind = match a2.handle_stun(msg, from) {
+                    HandleStunReply::IncomingStun(_) => 1u8,
+                    HandleStunReply::StunResponse(_) => 2,
+                    HandleStunReply::Drop => 0,
+                };
+                verdicts.push((kind, a2.is_validated_peer(from)));
+            }
+            let want = vec![(1u8, true), (1, true), (2, true)];
+            if !sent || verdicts != want || a2.request_transaction(idv.into()).is_some() {
+                out.breaches.push(("C05", "contents/method-handling".into(), format!("messages of method {method:#05x} are not handled like those of any other method (indication, request, response to an outstanding request of that method)"), format!("sent, {want:?}, request completed"), format!("sent={sent}, {verdicts:?}, still outstanding: {}", a2.request_transaction(idv.into()).is_some())));
+                return out;
+            }
         }
         let mut n_tx = 0;
         match a.send(b, dest, base) {
@@ -648,6 +682,13 @@ pub fn scenarios(prop: &str, thorough: bool) -> Vec<Scenario> {
             }
         }
     }
+    if matches!(prop, "C05" | "C15") {
+        for tcp in [false, true] {
+            for block in 0..16usize {
+                v.push(Scenario { family: "contents".into(), tcp, kind: 255, n: block, via: 0, mix: 0, noise: false });
+            }
+        }
+    }
     if prop == "C18" {
         for tcp in [false, true] {
             for len in [0u8, 4, 8, 20] {
@@ -657,6 +698,12 @@ pub fn scenarios(prop: &str, thorough: bool) -> Vec<Scenario> {
                     }
                     for block in 0..256usize {
                         v.push(Scenario { family: "contents".into(), tcp, kind: len, n: block, via, mix: 0, noise: false });
+                    }
+                    if len == 4 {
+                        // every method (16 blocks of 256)
+                        for block in 0..16usize {
+                            v.push(Scenario { family: "contents".into(), tcp, kind: 255, n: block, via, mix: 0, noise: false });
+                        }
                     }
                 }
             }
